@@ -54,7 +54,11 @@ def pstr(top, p):
     return os.path.join(top, ch, name)        # data-like name directly in the channel directory
 
 
-def key_of(j):
+def key_of(j, g=None):
+    """time key (ms) of the j-th file of group g: RF channels write two files per second (names rf@S.000 / rf@S.500:
+    the millisecond part of the name counts), metadata channels one"""
+    if g is not None and KIND[g] == "rf":
+        return T0 * 1000 + j * 500
     return (T0 + j) * 1000
 
 
@@ -64,7 +68,7 @@ def universe(top):
     for g in range(4):
         for j in range(NKEYS):
             for s in (0, 1):
-                u[pstr(top, (g, key_of(j), s))] = (g, key_of(j), s)
+                u[pstr(top, (g, key_of(j, g), s))] = (g, key_of(j, g), s)
         for k in (0, 1, 2):
             u[pstr(top, (-1, k, g))] = (-1, k, g)
     # the model sorts equal keys as (group, sub); the implementation sorts path strings
@@ -546,7 +550,7 @@ def all_cfgs(sizes):
 
 
 def gen_random_history(rng, groups, sizes, n):
-    paths = [(g, key_of(j), 0) for g in groups for j in range(NKEYS)] + [(g, key_of(j), 1) for g in groups for j in (0, 1)]
+    paths = [(g, key_of(j, g), 0) for g in groups for j in range(NKEYS)] + [(g, key_of(j, g), 1) for g in groups for j in (0, 1)]
     junk = [(-1, k, g) for g in groups for k in (0, 1, 2)]
     ops = list(props_ops())
     nxt = {g: 0 for g in groups}
@@ -555,7 +559,7 @@ def gen_random_history(rng, groups, sizes, n):
         r = rng.random()
         if r < 0.30:       # a writer finishes the next file of a channel and the event arrives
             g = rng.choice(groups)
-            p = (g, key_of(nxt[g] % NKEYS), 0)
+            p = (g, key_of(nxt[g] % NKEYS, g), 0)
             nxt[g] += 1
             ops.append(("W", p, rng.choice(sizes)))
             present.add(p)
@@ -607,13 +611,13 @@ def gen_random_history(rng, groups, sizes, n):
 
 
 def exhaustive_alphabet(groups, nkeys):
-    paths = [(g, key_of(j), 0) for g in groups for j in range(nkeys)]
+    paths = [(g, key_of(j, g), 0) for g in groups for j in range(nkeys)]
     al = []
     for p in paths:
         al += [[("W", p, 100), ("C", p)], [("C", p)], [("W", p, 250), ("M", p)], [("D", p)], [("X", p)]]
     # a tracked file set aside under a name the ring buffer does not track, reported as a move
     for g in groups:
-        p = (g, key_of(0), 0)
+        p = (g, key_of(0, g), 0)
         al.append([("X", p), ("W", (-1, 2, g), 100), ("V", p, (-1, 2, g))])
     al += [[("S", "CUR")], [("AG", paths)], [("A", list(reversed(paths)), True)]]
     return al
@@ -684,11 +688,53 @@ def restart_case(impl, case):
     return probs
 
 
+def flaky_remove_case(impl, g, errno_name):
+    """os.remove of the expired file fails once with a transient error (EBUSY / EACCES / EINTR), or the file is already
+    gone (ENOENT): the handler must end with the file off the disk and out of its records, without raising"""
+    import errno
+    P = lambda t: pstr(impl.top, tuple(t))
+    impl.force_mode = "plain"
+    impl.reset((None, 1, None))
+    for o in props_ops():
+        impl.apply(o)
+    f0, f1 = (g, key_of(0, g), 0), (g, key_of(1, g), 0)
+    impl.apply(("W", f0, 64))
+    impl.apply(("C", f0))
+    impl.apply(("W", f1, 64))
+    real_remove, state = os.remove, {"n": 0}
+    code = getattr(errno, errno_name)
+
+    def flaky(path, *a, **k):
+        if path == P(f0) and state["n"] == 0:
+            state["n"] += 1
+            if code == errno.ENOENT:
+                real_remove(path)
+            raise OSError(code, os.strerror(code), path)
+        return real_remove(path, *a, **k)
+    os.remove = flaky
+    exc = None
+    try:
+        impl.handler.dispatch(impl.ev.FileCreatedEvent(P(f1)))
+    except Exception as e:  # noqa
+        exc = "%s: %s" % (type(e).__name__, e)
+    finally:
+        os.remove = real_remove
+    probs = []
+    if exc:
+        probs.append(("expiry-raises-on-failed-remove", exc[:200]))
+    if os.path.exists(P(f0)):
+        probs.append(("expired-file-left-on-disk", {"file": os.path.relpath(P(f0), impl.top), "remove failed once with": errno_name,
+                                                    "tracked": sorted(os.path.relpath(x, impl.top) for x in impl.handler.records)}))
+    if sorted(impl.handler.records) != [P(f1)]:
+        probs.append(("records-wrong-after-failed-remove", sorted(os.path.relpath(x, impl.top) for x in impl.handler.records)))
+    return probs
+
+
 def restart_leg(res):
     rng = res.rng
     impl = Impl()
     for i in range(12 if res.tier == "quick" else 120):
-        pool = [(g, key_of(j), s) for g in (0, 1, 2, 3) for j in range(NKEYS) for s in (0, 1)]
+        pool = [(g, key_of(j, g), s) for g in (0, 1, 2, 3) for j in range(NKEYS) for s in (0, 1)]
         rng.shuffle(pool)
         a, b, c, d = rng.randrange(1, 5), rng.randrange(0, 3), rng.randrange(0, 3), rng.randrange(1, 4)
         case = {"tracked": pool[:a], "vanished": pool[a:a + b], "unseen": pool[a + b:a + b + c], "late": pool[a + b + c:a + b + c + d]}
@@ -698,6 +744,12 @@ def restart_leg(res):
             res.violation(sig, "DigitalRFRingbuffer._restart with file events delivered between the listing and the comparison",
                           {"restart_case": case}, "after _restart the handler tracks exactly the files on disk "
                           "(tracked + unseen + reported during the listing; the vanished ones dropped)", detail)
+    for g in (0, 1, 2, 3):
+        for en in ("ENOENT", "EBUSY", "EACCES", "EINTR"):
+            res.count("expiry-with-failing-remove")
+            for sig, detail in flaky_remove_case(impl, g, en):
+                res.violation(sig, "the deletion of an expired file fails once", {"flaky_remove": [g, en]},
+                              "count limit 1: after the second file is reported the first is off the disk and untracked", detail)
 
 
 def run(res):
@@ -727,7 +779,7 @@ def _run(res):
                 "compared with the extracted model and the property oracle is evaluated on the implementation")
     agree_all, detail_all = [], []
     # 0. the recorded witness of the duplicate-accounting defect (fixed): three 100-byte files, limit 350
-    wit = props_ops() + [x for j in range(3) for x in (("W", (1, key_of(j), 0), 100), ("C", (1, key_of(j), 0)))] + [("C", (1, key_of(2), 0))]
+    wit = props_ops() + [x for j in range(3) for x in (("W", (1, key_of(j, 1), 0), 100), ("C", (1, key_of(j, 1), 0)))] + [("C", (1, key_of(2, 1), 0))]
     a, d, _r = check_batch(res, [((350, None, None), wit)], "witness")
     agree_all.append(a)
     detail_all.append(d)
@@ -763,8 +815,8 @@ def _run(res):
     res.sample({"cfg": list(batch[0][0]), "ops": [list(o) for o in batch[0][1][:12]], "note": "first 12 steps of a random history"})
     settle_variant(res, agree_all, detail_all)
     # 3. outside the size hypothesis the implementation raises IndexError and the model sets err
-    bad = props_ops() + [("W", (2, key_of(0), 0), 50), ("C", (2, key_of(0), 0)), ("W", (2, key_of(0), 0), 250),
-                         ("M", (2, key_of(0), 0)), ("W", (1, key_of(0), 0), 50), ("C", (1, key_of(0), 0))]
+    bad = props_ops() + [("W", (2, key_of(0, 2), 0), 50), ("C", (2, key_of(0, 2), 0)), ("W", (2, key_of(0, 2), 0), 250),
+                         ("M", (2, key_of(0, 2), 0)), ("W", (1, key_of(0, 1), 0), 50), ("C", (1, key_of(0, 1), 0))]
     impl = Impl()
     impl.reset((100, None, None))
     excs = [impl.apply(o) for o in bad]
@@ -804,6 +856,12 @@ def dec_op(o):
 def replay(res, rp):
     impl = Impl()
     i = rp["input"]
+    if "flaky_remove" in i:
+        probs = flaky_remove_case(impl, *i["flaky_remove"])
+        print("count limit 1, os.remove of the expired file fails once with", i["flaky_remove"][1], "(channel group %d)" % i["flaky_remove"][0])
+        for pr in probs:
+            print("VIOLATION", pr)
+        return 1 if probs else 0
     if "restart_case" in i:
         probs = restart_case(impl, i["restart_case"])
         print("restart with events in flight:", i["restart_case"])
